@@ -1021,6 +1021,18 @@ func (x *rawRun) menu() []action {
 			x.pSegs[0] = [2]int{s[0] + k, s[1] - k}
 			x.peerSendData(s[0], k, false)
 		}})
+		if edgeOff := int(x.sEdge - (x.cfg.PeerISS + 1)); x.dev('o') && !x.probed && edgeOff+8 <= len(x.pData) {
+			n := len(x.pData) - edgeOff
+			if n > 50 {
+				n = 50
+			}
+			m = append(m, action{name: fmt.Sprintf("non-conforming peer sends [%d,+%d), which starts at the window edge (wholly outside the window)", edgeOff, n), cost: 1, do: func() {
+				x.probed = true
+				x.sendingProbe = true
+				x.peerSendData(edgeOff, n, false)
+				x.sendingProbe = false
+			}})
+		}
 	case len(x.pSegs) > 0 && x.established && !x.fits(x.pSegs[0]) && x.cfg.Read == "stall" && !x.drain:
 		m = append(m, action{name: "peer is blocked by the advertised window; application starts reading", do: func() { x.drain = true }})
 		if x.dev('o') && !x.probed {
